@@ -14,11 +14,14 @@ from vlib import hx, hxl
 sys.path.insert(0, os.path.dirname(os.path.dirname(os.path.abspath(__file__))))
 import translate_panics
 from props import front_stream
+from props import pipeline_stream
 
 ID = 'C01'
-COMPONENTS = ['front']
+COMPONENTS = ['front', 'pipeline']
 THEOREMS = ['C01_panic_sites_covered', 'C01_span_no_panic', 'C01_crop_no_panic',
-            'C01_front_no_panic', 'C01_front_error_located', 'C01_front_nonvacuous']
+            'C01_front_no_panic', 'C01_front_error_located', 'C01_front_nonvacuous',
+            'C01_pipeline_front_verdict', 'C01_refeval_no_panic', 'C01_pipeline_no_panic', 'C01_pipeline_fuel',
+            'C01_pipeline_nonvacuous']
 ALLOWED_AXIOMS = set()
 
 
@@ -364,6 +367,7 @@ def check(run):
     run_cases(run, impl_exe, source_cases(rng, run.tier), 'src', shards=vlib.NCPU, mem=3 << 30)
     run_cases(run, impl_exe, matrix_cases(rng, ar, run.tier), 'std', shards=8, mem=3 << 30)
     cli_stream(run, cli, rng, run.tier)
+    pipeline_stream.run_pipeline_stream(run, impl_exe, vlib.rng_for(run.seed, ID + '-pipeline'), run.tier)   # whole pipeline from bytes: Front + RefEval vs eval
 
 
 def replay(run, path):
@@ -379,6 +383,8 @@ def replay(run, path):
         return 1 if bad else 0
     if isinstance(r, dict) and r.get('kind') == 'front':
         return front_stream.replay_front(run, r, impl_exe)
+    if isinstance(r, dict) and r.get('kind') == 'pipeline':
+        return pipeline_stream.replay_pipeline(run, r, impl_exe)
     if isinstance(r, dict) and r.get('kind') == 'deep':
         cli = vlib.build_cli()
         tmp = tempfile.mkdtemp(prefix='rsj-verif-c01.')
